@@ -1,9 +1,11 @@
 """C01.2 — the index handed to do_rollback.
 
 History layout: [sends of e1 (tagged)..., e1 (untagged), sends of e2..., e2, ...].  do_rollback(i) cancels/undoes
-everything from index i on, so i must be 0 or one past an untagged ("past") entry that remains valid; an index one
-past a tagged entry, or past an entry never tested, would leave sends of an undone event uncancelled or undo too
-little.  (Undoing one valid event too many is safe in Time Warp and is accepted.)
+everything from index i on, so i must be 0 or ONE PAST an untagged ("past") entry that remains valid.  An index one
+past a tagged entry, or past an entry never tested, leaves sends of an undone event uncancelled or undoes too
+little; an index AT an untagged entry re-queues that event without cancelling the messages it sent (they precede
+it), so it is delivered and its sends duplicated (seeded change C06/3 showed this; an earlier version of this rule
+wrongly accepted it as a harmless over-rollback).
 
 Abstract walk along CFG paths (each block at most twice): for the index variable V we track whether it is known to
 be zero, and the tag status of the entry most recently loaded at V since V last changed.
@@ -159,6 +161,25 @@ def _analyse_sink(f, sink_expr, sink_node, hist_hint="p_msgs"):
                             target = True
                             if sd.k == "DeclRefExpr":
                                 status = "past"      # equal to a real (untagged) message pointer
+                # tag test applied directly to the array element:  is_msg_sent(items[--V]) / is_msg_past(items[V])
+                cc = X.strip(core)
+                if cc.k == "BinaryOperator" and cc.op == "&" and X.const_int(cc.children[1]) in (1, 2, 3):
+                    el = X.strip(cc.children[0])
+                    while el is not None and el.k in ("CStyleCastExpr", "ImplicitCastExpr", "ParenExpr"):
+                        el = X.strip(el.children[0])
+                    if el is not None and el.k == "ArraySubscriptExpr" and hist_hint in X.show(el.children[0]):
+                        ix = X.strip(el.children[1])
+                        if ix.k == "UnaryOperator" and ix.op in ("--", "++"):
+                            ix = X.strip(ix.children[0])
+                        if ix.k == "DeclRefExpr" and ix.did == vd:
+                            mask = X.const_int(cc.children[1])
+                            bound, offset, target = "direct", 0, False
+                            if mask == 3:
+                                status = "sent" if truth else "past"
+                            elif truth:
+                                status = "sent"
+                            else:
+                                status = "unknown"
                 tt = _tag_test_var(core)
                 if tt is not None and bound is not None and tt[0] == bound:
                     mask = tt[1]
@@ -176,7 +197,7 @@ def _analyse_sink(f, sink_expr, sink_node, hist_hint="p_msgs"):
         elif status == "past" and eff == 1:
             res.append(("ok", "one past an entry tested untagged"))
         elif status == "past" and eff == 0:
-            res.append(("over", "the tested untagged entry itself (undoes one valid event too many; safe)"))
+            res.append(("under", "AT a processed entry: that event is re-queued while the messages it sent, which precede it in the history, are not cancelled"))
         elif eff >= 1 and status in ("sent", "unknown"):
             res.append(("under", "one past an entry that is %s" % ("tagged as a sent message" if status == "sent" else "never tested for its tag")))
         elif eff >= 2:
